@@ -1384,6 +1384,14 @@ func (h *H) replay(path string) {
 		}
 		return
 	}
+	if fam, _ := generic["family"].(string); fam == "ed25519" {
+		h.replayEd(generic)
+		return
+	}
+	if fam, _ := generic["family"].(string); fam == "ecdsa" {
+		h.replayEC(generic)
+		return
+	}
 	if fam, _ := generic["family"].(string); fam == "rsa" {
 		h.replayRSA(generic)
 		return
@@ -1532,13 +1540,15 @@ func main() {
 	tAsym := time.Since(t0) - tSym
 	if !f.Search {
 		h.rsaInterop()
+		h.ecdsaInterop()
+		h.ed25519Interop()
 	}
 	tRSA := time.Since(t0) - tSym - tAsym
 	if !f.Search {
 		h.compareWithModel()
 	}
 	res.Exhaustive = false
-	res.Note(fmt.Sprintf("wall: symmetric+subpackages %.1fs, asymmetric %.1fs, rsa interop vs Lean %.1fs, model comparison %.1fs; %d request lines", tSym.Seconds(), tAsym.Seconds(), tRSA.Seconds(), (time.Since(t0) - tSym - tAsym - tRSA).Seconds(), len(h.lines)))
+	res.Note(fmt.Sprintf("wall: symmetric+subpackages %.1fs, asymmetric %.1fs, rsa+ecdsa+ed25519 interop vs Lean %.1fs, model comparison %.1fs; %d request lines", tSym.Seconds(), tAsym.Seconds(), tRSA.Seconds(), (time.Since(t0) - tSym - tAsym - tRSA).Seconds(), len(h.lines)))
 	keys := make([]string, 0)
 	for k := range res.Distribution {
 		keys = append(keys, k)
